@@ -30,10 +30,18 @@ type dataGhost struct {
 	anchor     map[string]string // iri -> first anchor time (unix nanos)
 	attest     map[string]string // iri|attestor -> first attestation time
 	reg        map[string]bool   // resolver id|iri
+	// byHash: canonical bytes of the content hash (not its IRI) -> first anchor time. "A piece of data" is its content
+	// hash; if two content hashes are given one IRI, the second one's first anchoring is reported with the first one's
+	// time, which this map exposes without relying on the implementation's naming function.
+	byHash      map[string]string
+	noHashGhost bool
 }
 
 func (g *dataGhost) Clone() explore.Ghost {
-	n := &dataGhost{production: g.production, id: map[string]string{}, anchor: map[string]string{}, attest: map[string]string{}, reg: map[string]bool{}}
+	n := &dataGhost{production: g.production, noHashGhost: g.noHashGhost, id: map[string]string{}, anchor: map[string]string{}, attest: map[string]string{}, reg: map[string]bool{}, byHash: map[string]string{}}
+	for k, v := range g.byHash {
+		n.byHash[k] = v
+	}
 	for k, v := range g.id {
 		n.id[k] = v
 	}
@@ -63,12 +71,17 @@ func (g *dataGhost) Digest() []byte {
 	for k := range g.reg {
 		ks = append(ks, "r:"+k)
 	}
+	for k, v := range g.byHash {
+		ks = append(ks, fmt.Sprintf("h:%x=%s", k, v))
+	}
 	sort.Strings(ks)
 	return []byte(strings.Join(ks, ";"))
 }
 
 func (m *C16) NewGhost(c *chain.Chain, _ sdk.Context, s *chain.Snapshot) explore.Ghost {
-	g := &dataGhost{production: c != nil && c.Opts.Hasher == nil, id: map[string]string{}, anchor: map[string]string{}, attest: map[string]string{}, reg: map[string]bool{}}
+	g := &dataGhost{production: c != nil && c.Opts.Hasher == nil, id: map[string]string{}, anchor: map[string]string{}, attest: map[string]string{}, reg: map[string]bool{}, byHash: map[string]string{}}
+	// a seed that already holds anchored data gives no content hashes for them: the content-hash ghost is then off
+	g.noHashGhost = len(s.DataAnchors) > 0
 	iriOf := map[string]string{}
 	for _, d := range s.DataIDs {
 		g.id[d.Iri] = hex.EncodeToString(d.Id)
@@ -90,6 +103,28 @@ type irier interface{ ToIRI() (string, error) }
 
 // Instants are kept as "seconds.nanoseconds" strings: int64 nanoseconds (time.UnixNano) wrap outside
 // 1677..2262, which would make a wrapped stored timestamp look equal to the wrapped expectation.
+// hashKey is the canonical identity of a content hash: its deterministic protobuf bytes (a graph hash handed over
+// alone, as in MsgAttest, is wrapped so that it equals the same hash inside a ContentHash).
+func hashKey(h irier) string {
+	var ch *data.ContentHash
+	switch x := h.(type) {
+	case *data.ContentHash:
+		ch = x
+	case *data.ContentHash_Graph:
+		ch = &data.ContentHash{Graph: x}
+	case *data.ContentHash_Raw:
+		ch = &data.ContentHash{Raw: x}
+	}
+	if ch == nil {
+		return ""
+	}
+	bz, err := ch.Marshal()
+	if err != nil {
+		return ""
+	}
+	return string(bz)
+}
+
 func instant(t time.Time) string { return fmt.Sprintf("%d.%09d", t.Unix(), t.Nanosecond()) }
 
 func pbInstant(t interface {
@@ -128,6 +163,11 @@ func (m *C16) OnStep(gh explore.Ghost, st *explore.Step) []V {
 		} else {
 			m.inc("repeated_anchors")
 		}
+		if k := hashKey(h); k != "" && !g.noHashGhost {
+			if _, ok := g.byHash[k]; !ok {
+				g.byHash[k] = now
+			}
+		}
 		return iri
 	}
 	switch msg := st.Res.Msg.(type) {
@@ -143,6 +183,9 @@ func (m *C16) OnStep(gh explore.Ghost, st *explore.Step) []V {
 		}
 		if gogoNanos(r.Timestamp) != g.anchor[iri] {
 			bad("anchor-response-timestamp-not-first-anchor-time", fmt.Sprintf("response %s, first anchored %s", gogoNanos(r.Timestamp), g.anchor[iri]))
+		}
+		if k := hashKey(msg.ContentHash); k != "" && g.byHash[k] != "" && gogoNanos(r.Timestamp) != g.byHash[k] {
+			bad("anchor-response-timestamp-is-another-content-hash's", fmt.Sprintf("response %s for IRI %q, but THIS content hash was first anchored %s (another content hash shares the IRI)", gogoNanos(r.Timestamp), r.Iri, g.byHash[k]))
 		}
 	case *data.MsgAttest:
 		var newIRIs []string
